@@ -14,7 +14,7 @@ import os
 ID = "C12"
 LEVEL = "exploration"
 RULE = (
-    "alphabet of 15 requests (incl. footprint/dispersion twins on identical geometry and same-shape different-physics pairs) (shapes 9x7 .. 48x40, odd sizes, truncated / over-requested modes, single and double precision, footprint and "
+    "alphabet of 17 requests (incl. integer / list / numpy-integer spellings of two requests, footprint/dispersion twins on identical geometry and same-shape different-physics pairs) (shapes 9x7 .. 48x40, odd sizes, truncated / over-requested modes, single and double precision, footprint and "
     "dispersion, default / zero / explicit halo, analytic, multi-level); histories of 60 operations drawn from {solve, set NUM_THREADS in "
     "{1,2,4,8}, reset_fft_manager, get_fft_manager(k), fftw_wisdom.pkl dropped / truncated / garbage / foreign, allocation noise}; 16 "
     "history runners execute concurrently (loaded machine).  non-trivial = a solve preceded by a different request, a thread change or a "
@@ -73,11 +73,15 @@ def requests():
     R["r12"] = dict(R["r5"], footprint=False, srf_flx=rng.normal(size=(32, 32)))
     R["r13"] = dict(R["r0"], footprint=True, meas_pt=(0.0, 0.0))
     R["r14"] = dict(R["r4"], footprint=True)
+    # the same numbers as r4 / r5 given as integers, lists and numpy integers: a pure function of the argument VALUES
+    R["r15"] = dict(R["r4"], domain=(100, 112), levels=[np.int64(2), np.int32(8)], modes=[6, 8], halo=0, meas_pt=(30, 48), srf_bg_conc=1.5)
+    R["r16"] = dict(R["r5"], domain=[320, 256], levels=np.array([10, 3, 17], dtype=np.int32), modes=(np.int64(40), np.int64(40)), halo=40, meas_pt=(160, 128))
     return R
 
 
 PAIRS = {"r1": "r0", "r3": "r2", "r9": "r8"}  # single -> its double counterpart
-TWINS = {"r11": "r2", "r12": "r5", "r13": "r0", "r14": "r4", "r10": "r0"}  # same geometry, other mode / other physics
+TWINS = {"r11": "r2", "r12": "r5", "r13": "r0", "r14": "r4", "r10": "r0", "r15": "r4", "r16": "r5"}
+SAME_VALUES = {"r15": "r4", "r16": "r5"}  # integer / list / numpy-integer spelling of the same argument values  # same geometry, other mode / other physics
 
 
 def do_solve(req):
@@ -275,6 +279,13 @@ def run_case(case):
                 resid[key] = max(resid[key], float(e))
                 if e > tolr:
                     viol.append(dict(what="result_depends_on_history", rel=float(e), **ctx))
+            # (2c) another spelling of the same argument values
+            if nm in SAME_VALUES:
+                cv, fv = _table[SAME_VALUES[nm]]
+                e = max(np.max(np.abs(c - cv)) / (np.max(np.abs(cv)) or 1), np.max(np.abs(f - fv)) / (np.max(np.abs(fv)) or 1)) if c.shape == cv.shape else float("inf")
+                counters["same_value_spellings"] = counters.get("same_value_spellings", 0) + 1
+                if not e <= tolr:
+                    viol.append(dict(what="result_depends_on_the_type_of_an_argument", counterpart=SAME_VALUES[nm], rel=float(e), **ctx))
             # (3) single vs double
             if nm in PAIRS:
                 cd, fd = _table[PAIRS[nm]]
